@@ -50,10 +50,16 @@ Definition query (s : flw) (w : world) (sel : selector) : res (list bytes) * wor
                   | Initial => match c_rot c with Some _ => true | None => false end
                   | Active (Some _) _ _ => true
                   | Active None _ _ => false end in
-  let flt := match f_inner s with Active (Some rs) _ _ => ns_filter (rs_naming rs) | _ => IFNone end in
+  let flt := match f_inner s with
+             | Active (Some rs) _ _ => ns_filter (rs_naming rs)
+             | Initial => match c_rot c with Some (_, nam, _) => naming_filter nam | None => IFNone end
+             | _ => IFNone end in
   if uses_rot then
     with_listing w (fun w' => existing_rot (woff w') (c_spec c) (fixed_of c w') (wfs w') flt sel)
-  else (Ok [name_of c w None], w).
+  else
+    (* without rotation there is one log file: listed when plain files are asked for and it exists *)
+    let n := name_of c w None in
+    (Ok (if sel_plain sel && is_reg_file (wfs w) n then [n] else []), w).
 
 Definition ext_create (f : fs) (a : bytes) (kind : N) (d : bytes) (now : Z) : fs :=
   let '(f1, i) := open_trunc f a kind now in
